@@ -8,8 +8,23 @@
    (None = the IndexError of F22), `oks_matrix` its matrix.  Poses are split as
    g1 ++ gk :: g2 to speak about "the keypoint at one node".
    Domain: at least one visible gt keypoint (otherwise the value is 0/0 = NaN,
-   ex_c15_all_missing_gt_is_nan), stddev > 0, scale >= 0 (`scale_ok`; the
-   automatic scale always is: c15_auto_scale_defined). *)
+   ex_c15_all_missing_gt_is_nan), stddev > 0 (`sds_ok`), scale >= 0 (`scale_ok` /
+   `scspec_ok`; the automatic scale always is: c15_auto_scale_defined).  Every theorem
+   about a VALUE (`oks_val`) carries these three hypotheses (review round 4, finding 1):
+   outside the domain the model's totalised arithmetic (x / 0 = 0 in Q and R, "missing
+   prediction -> term 0" whatever the sign of the normalisation) no longer describes the
+   code, which returns NaN (stddev 0, no visible gt keypoint) or exp(+inf) = inf for a
+   missing prediction under a negative scale (ex_c15_negative_scale_outside_domain).
+   Theorems that are equalities of the exp-ARGUMENTS (c15_gt_missing_prediction_irrelevant,
+   c15_matrix_entry, c15_matrix_reorder) are structural and need no domain.
+   Shapes are consistent (model precondition): every pose, the stddev list and a vector
+   scale have the lengths the code would accept; `zip`/`zip3` truncate ragged input where
+   the code raises a broadcast error.
+   Pinned tree vs current tree: F22 / F51 were defects of the pinned tree, repaired in /repo
+   by bc2102a / 8044028.  `compute_oks false`, `match_instances false`, `match_frame_pairs
+   false` are the PRE-REPAIR variants (no code implements them any more; kept so that a
+   regression is reported: the harness replays the witnesses and switches the flag);
+   `... true` is the current tree. *)
 From Coq Require Import List Arith ZArith QArith Qreals Reals Permutation.
 Import ListNotations.
 From SV Require Import C15.Oks C15.Lemmas C15.Frames C15.LemmasFrames.
@@ -39,9 +54,10 @@ Print Assumptions c15_auto_scale_defined.
 
 (* ---- identical poses give exactly 1 ---- *)
 Theorem c15_oks_identical : forall coco s sds g,
+  scale_ok (Some s) -> sds_ok sds ->
   (1 <= n_visible g)%nat -> (length g <= length sds)%nat ->
   oks_val (oks_pair coco (Some s) sds g g) = 1.
-Proof. exact oks_pair_identical. Qed.
+Proof. intros coco s sds g _ _. apply oks_pair_identical. Qed.
 Print Assumptions c15_oks_identical.
 
 (* ---- keypoints missing in the ground truth are ignored ---- *)
@@ -58,10 +74,11 @@ Print Assumptions c15_gt_missing_prediction_irrelevant.
    coordinate; a half-NaN keypoint does enter the bounding box:
    ex_c15_half_missing_gt_enters_bbox) *)
 Theorem c15_gt_missing_node_removable : forall coco sc g1 gk g2 p1 pk p2 s1 sd s2,
+  scale_ok sc -> sds_ok (s1 ++ sd :: s2) -> (1 <= n_visible (g1 ++ gk :: g2))%nat ->
   length g1 = length p1 -> length g1 = length s1 -> missing gk = true ->
   oks_val (oks_pair coco sc (s1 ++ sd :: s2) (g1 ++ gk :: g2) (p1 ++ pk :: p2)) =
   oks_val (oks_pair coco sc (s1 ++ s2) (g1 ++ g2) (p1 ++ p2)).
-Proof. exact oks_pair_drop_missing_gt_node. Qed.
+Proof. intros coco sc g1 gk g2 p1 pk p2 s1 sd s2 _ _ _. apply oks_pair_drop_missing_gt_node. Qed.
 Print Assumptions c15_gt_missing_node_removable.
 
 Theorem c15_auto_scale_ignores_fully_missing : forall n_ed g1 gk g2,
@@ -72,38 +89,47 @@ Print Assumptions c15_auto_scale_ignores_fully_missing.
 (* ---- a keypoint missing in the prediction is a complete miss: its term is 0
    while the (visible) gt keypoint still counts in the divisor; no prediction at
    that node can do worse ---- *)
+(* (the formal reading of "complete miss": a `_def`-style unfolding of the model, meaningful
+   only under the domain hypotheses, where "term 0" is what the code computes) *)
 Theorem c15_pr_missing_is_complete_miss : forall coco sc g1 gk g2 p1 pk p2 s1 sd s2,
+  scale_ok sc -> sds_ok (s1 ++ sd :: s2) -> (1 <= n_visible (g1 ++ gk :: g2))%nat ->
   length g1 = length p1 -> length g1 = length s1 -> missing pk = true ->
   oks_val (oks_pair coco sc (s1 ++ sd :: s2) (g1 ++ gk :: g2) (p1 ++ pk :: p2)) =
   (rsum (map val (terms coco sc s1 g1 p1)) + 0 + rsum (map val (terms coco sc s2 g2 p2)))
   / INR (n_visible (g1 ++ gk :: g2)).
-Proof. exact oks_pair_missing_pr. Qed.
+Proof. intros coco sc g1 gk g2 p1 pk p2 s1 sd s2 _ _ _. apply oks_pair_missing_pr. Qed.
 Print Assumptions c15_pr_missing_is_complete_miss.
 
 Theorem c15_pr_missing_never_better : forall coco sc g1 gk g2 p1 pk pk' p2 s1 sd s2,
+  scale_ok sc -> sds_ok (s1 ++ sd :: s2) -> (1 <= n_visible (g1 ++ gk :: g2))%nat ->
   length g1 = length p1 -> length g1 = length s1 -> missing pk = true ->
   oks_val (oks_pair coco sc (s1 ++ sd :: s2) (g1 ++ gk :: g2) (p1 ++ pk :: p2)) <=
   oks_val (oks_pair coco sc (s1 ++ sd :: s2) (g1 ++ gk :: g2) (p1 ++ pk' :: p2)).
-Proof. exact oks_pair_missing_pr_le. Qed.
+Proof. intros coco sc g1 gk g2 p1 pk pk' p2 s1 sd s2 _ _ _. apply oks_pair_missing_pr_le. Qed.
 Print Assumptions c15_pr_missing_never_better.
 
 (* ---- moving one predicted keypoint farther from its target never increases OKS ---- *)
 Theorem c15_oks_monotone : forall coco sc g1 gk g2 p1 pk pk' p2 s1 sd s2,
   length g1 = length p1 -> length g1 = length s1 ->
-  (0 < sd)%Q -> scale_ok sc -> missing pk = false -> missing pk' = false ->
+  sds_ok (s1 ++ sd :: s2) -> scale_ok sc -> (1 <= n_visible (g1 ++ gk :: g2))%nat ->
+  missing pk = false -> missing pk' = false ->
   (dist2 gk pk <= dist2 gk pk')%Q ->
   oks_val (oks_pair coco sc (s1 ++ sd :: s2) (g1 ++ gk :: g2) (p1 ++ pk' :: p2)) <=
   oks_val (oks_pair coco sc (s1 ++ sd :: s2) (g1 ++ gk :: g2) (p1 ++ pk :: p2)).
-Proof. exact oks_pair_monotone. Qed.
+Proof.
+  intros coco sc g1 gk g2 p1 pk pk' p2 s1 sd s2 H1 H2 Hsd Hsc _. apply oks_pair_monotone; try assumption.
+  unfold sds_ok in Hsd. apply Forall_app in Hsd. destruct Hsd as [_ Hsd]. inversion Hsd; assumption.
+Qed.
 Print Assumptions c15_oks_monotone.
 
 (* ---- translating both poses leaves OKS unchanged (t k = offset of coordinate k);
    the automatic scale is translation invariant, so this holds for every scale option ---- *)
-Theorem c15_translation_invariant : forall n_ed n gts prs sc sd coco t i j e e',
+Theorem c15_translation_invariant : forall n_ed n gts prs sc sd coco t i j e e' g,
+  scspec_ok sc -> sds_ok (sd_list sd n) -> nth_error gts i = Some g -> (1 <= n_visible g)%nat ->
   entry (oks_matrix n_ed n (map (translate t) gts) (map (translate t) prs) sc sd coco) i j = Some e' ->
   entry (oks_matrix n_ed n gts prs sc sd coco) i j = Some e ->
   oks_val e' = oks_val e.
-Proof. exact oks_matrix_translate. Qed.
+Proof. intros n_ed n gts prs sc sd coco t i j e e' g _ _ _ _. apply oks_matrix_translate. Qed.
 Print Assumptions c15_translation_invariant.
 
 Theorem c15_auto_scale_translation_invariant : forall n_ed t g,
@@ -130,7 +156,22 @@ Theorem c15_matrix_reorder : forall n_ed n gts prs sc sd coco pi pj dflt,
 Proof. exact oks_matrix_reorder. Qed.
 Print Assumptions c15_matrix_reorder.
 
-(* ---- F22: as coded, the matrix exists only for exactly one prediction ---- *)
+(* with a vector scale: reordering the gt instances together with their scales (and the predictions)
+   permutes the entries — the clause "reordering instances" for every scale option *)
+Theorem c15_matrix_reorder_vector_scale : forall n_ed n gts prs l sd coco pi pj a b i j g p s,
+  nth_error pi a = Some i -> nth_error pj b = Some j ->
+  nth_error gts i = Some g -> nth_error prs j = Some p -> nth_error l i = Some s ->
+  entry (oks_matrix n_ed n (pick [] pi gts) (pick [] pj prs) (ScVec (pick 0%Q pi l)) sd coco) a b =
+  entry (oks_matrix n_ed n gts prs (ScVec l) sd coco) i j.
+Proof. exact oks_matrix_reorder_vector. Qed.
+Print Assumptions c15_matrix_reorder_vector_scale.
+
+(* ---- F22 (HISTORICAL: the pinned tree before fix bc2102a; the current tree is `compute_oks true`,
+   c15_oks_fixed_total): as then coded, the matrix existed only for exactly one prediction.
+   `compute_oks false` is a hand-written flag (`if fixed || length prs =? 1`), so
+   c15_oks_as_coded_fails_iff is a `_def` fact about that flag, not derived from a model of numpy mask
+   indexing; c15_oks_single_prediction_partial is superseded by c15_oks_fixed_total on the current tree
+   (names kept for the record). ---- *)
 Theorem c15_oks_matrix_refuted :
   exists n_ed n gts prs sc sd,
     Forall (fun g => (1 <= n_visible g)%nat) gts /\ length prs = 2%nat /\
@@ -148,7 +189,7 @@ Theorem c15_oks_as_coded_fails_iff : forall n_ed n gts prs sc sd coco,
 Proof. exact compute_oks_as_coded_none. Qed.
 Print Assumptions c15_oks_as_coded_fails_iff.
 
-(* the strongest true statement on the code as it is: one prediction at a time
+(* the strongest true statement on the pinned tree (before bc2102a): one prediction at a time
    (all callers in the repo), the column is the model matrix *)
 Theorem c15_oks_single_prediction_partial : forall fixed n_ed n gts p sc sd coco,
   compute_oks fixed n_ed n gts [p] sc sd coco = Some (oks_matrix n_ed n gts [p] sc sd coco).
@@ -172,7 +213,9 @@ Theorem c15_match_one_to_one_and_conservation : forall fixed n_gt scores M thr m
 Proof. exact match_instances_spec. Qed.
 Print Assumptions c15_match_one_to_one_and_conservation.
 
-(* F51: a frame with predictions and no gt instance has no answer (ValueError) as coded *)
+(* F51 (HISTORICAL: pinned tree before fix 8044028; current tree = `match_instances true`): a frame with
+   predictions and no gt instance had no answer (ValueError); c15_match_total_partial is superseded by
+   c15_frames_total on the current tree *)
 Theorem c15_match_zero_gt_refuted : exists scores M thr,
   match_instances false 0 scores M thr = None.
 Proof. exists [1#2]%Q, [], 0%Q. reflexivity. Qed.
@@ -187,6 +230,42 @@ Proof.
   destruct H as [H|[H|H]]; [subst; eauto | inversion H | discriminate].
 Qed.
 Print Assumptions c15_match_total_partial.
+
+(* ---- "arbitrary scores" of the quantifier (review round 4, finding 2): a predicted frame as the code sees
+   it, `list pscore` = per instance no `score` attribute / NaN score / a rational score.  The code filters
+   the scores with `hasattr(m.instance, "score")` but indexes the UNFILTERED instance list with the argsort
+   positions of the filtered array, so with k scored instances among n exactly the FIRST k instances are
+   candidates (ex_c15_scoreless_shifts_indices: a perfect, scored prediction is never visited).  The wrong
+   pairing does not touch what the property claims: one-to-one and conservation hold on every predicted
+   frame (observation, not a finding of C15); NaN scores sort last, stably. ---- *)
+Theorem c15_match_any_predicted_frame : forall fixed n_gt prs M thr ms missed,
+  match_instances_gen fixed n_gt prs M thr = Some (ms, missed) ->
+  NoDup (map gt_of ms) /\ NoDup (map pr_of ms) /\
+  Permutation (map gt_of ms ++ missed) (seq 0 n_gt) /\
+  Forall (fun m => (gt_of m < n_gt)%nat /\ (pr_of m < length (scored prs))%nat /\ (pr_of m < length prs)%nat /\
+                   mget M (gt_of m) (pr_of m) = Some (oks_of m) /\ eligible thr (oks_of m)) ms.
+Proof. exact match_instances_gen_spec. Qed.
+Print Assumptions c15_match_any_predicted_frame.
+
+(* on frames whose instances all carry a rational score it is match_instances *)
+Theorem c15_match_gen_agrees_on_scores : forall fixed n_gt scores M thr,
+  match_instances_gen fixed n_gt (map Score scores) M thr = match_instances fixed n_gt scores M thr.
+Proof. exact match_instances_gen_scores. Qed.
+Print Assumptions c15_match_gen_agrees_on_scores.
+
+(* a score-less instance anywhere in the frame makes the last instance unreachable *)
+Theorem c15_scoreless_hides_last_instances : forall fixed n_gt prs M thr ms missed,
+  In NoScore prs -> match_instances_gen fixed n_gt prs M thr = Some (ms, missed) ->
+  ~ In (Nat.pred (length prs)) (map pr_of ms).
+Proof.
+  intros fixed n_gt prs M thr ms missed Hin H Hc.
+  destruct (match_instances_gen_spec _ _ _ _ _ _ _ H) as [_ [_ [_ Hall]]].
+  apply in_map_iff in Hc. destruct Hc as [m [Hm Hc]]. rewrite Forall_forall in Hall.
+  destruct (Hall m Hc) as [_ [Hlt _]]. pose proof (scored_length_noscore prs Hin). rewrite Hm in Hlt.
+  destruct prs; [contradiction|]. cbn [length Nat.pred] in *.
+  apply (Nat.lt_irrefl (length prs)). eapply Nat.lt_le_trans; [exact Hlt|]. apply Nat.lt_succ_r. exact H0.
+Qed.
+Print Assumptions c15_scoreless_hides_last_instances.
 
 (* ---- matching over the frames of an evaluation (match_frame_pairs, Frames.v) ----
    fps: the frame pairs, each (n_gt, prediction scores, OKS matrix); any pair may have no gt
@@ -252,8 +331,8 @@ Theorem c15_frames_nothing_matches_all_missed : forall fixed thr fps ps fns,
 Proof. exact match_frame_pairs_nothing_matches. Qed.
 Print Assumptions c15_frames_nothing_matches_all_missed.
 
-(* totality: the repaired code answers for every list; the code with F51 fails exactly when
-   some frame pair has predictions and no gt instance *)
+(* totality: the current tree (F51 repaired, 8044028) answers for every list; the pinned tree with F51
+   failed exactly when some frame pair has predictions and no gt instance (historical half) *)
 Theorem c15_frames_total : forall thr fps, exists r, match_frame_pairs true thr fps = Some r.
 Proof. exact match_frame_pairs_total. Qed.
 Print Assumptions c15_frames_total.
@@ -281,12 +360,14 @@ Theorem c15_iou_self : forall a, wf_box a -> (compute_iou a a == 1)%Q.
 Proof. exact compute_iou_self. Qed.
 Print Assumptions c15_iou_self.
 
+(* stated on `dot` (cosine_parts a b = (dot a b, dot a a, dot b b), one unfold apart) *)
 Theorem c15_cosine_range : forall a b,
   length a = length b -> (0 < dot a a)%Q -> (0 < dot b b)%Q ->
   -1 <= Q2R (dot a b) / (sqrt (Q2R (dot a a)) * sqrt (Q2R (dot b b))) <= 1.
 Proof. exact cosine_range. Qed.
 Print Assumptions c15_cosine_range.
 
+(* (trivial: true of any real under the sqrt; recorded only because the function is an anchor) *)
 Theorem c15_euclid_nonpos : forall a b, - sqrt (Q2R (sqdist a b)) <= 0.
 Proof. exact euclid_nonpos. Qed.
 Print Assumptions c15_euclid_nonpos.
@@ -297,6 +378,38 @@ Example ex_c15_nonvacuous :
                      [[[Some 0%Q; Some 1%Q]; [None; Some 3%Q]]] ScNone (SdScalar (1 # 40)) true) 0 0 = Some e
             /\ snd e = 2%nat /\ length (fst e) = 2%nat.
 Proof. eexists. split; [vm_compute; reflexivity|]. split; reflexivity. Qed.
+
+(* predicted frame [score-less copy of gt 0 ; copy of gt 1 with score 7/8]: scores_pr = [7/8], argsort = [0]:
+   only instance 0 (the score-less one) is visited, the scored perfect copy never is; gt 1 is missed *)
+Example ex_c15_scoreless_shifts_indices :
+  match_instances_gen true 2 [NoScore; Score (7 # 8)] [[Some 1; Some 0]; [Some 0; Some 1]]%Q 0%Q
+  = Some ([(0%nat, 0%nat, 1%Q)], [1%nat]).
+Proof. vm_compute. reflexivity. Qed.
+
+(* NaN scores are processed last, in frame order: [NaN; 1/8; NaN; 7/8] -> 3, 1, 0, 2 *)
+Example ex_c15_nan_scores_last :
+  argsort_desc_o (scored [NanScore; Score (1 # 8); NanScore; Score (7 # 8)]) = [3; 1; 0; 2]%nat.
+Proof. vm_compute. reflexivity. Qed.
+
+(* outside the domain (negative scale): the argument of exp is POSITIVE for a present prediction (value > 1) and the code gives exp(+inf) = inf for a missing one, where the model's "missing
+   prediction -> term 0" would claim a complete miss; hence `scale_ok` on every value theorem *)
+Example ex_c15_negative_scale_outside_domain :
+  ~ scale_ok (Some (-3)%Q) /\
+  match fst (oks_pair true (Some (-3)%Q) [1 # 1]%Q [[Some 3%Q; Some 4%Q]] [[Some 0%Q; Some 0%Q]]) with
+  | [Some q] => (0 < q)%Q
+  | _ => False
+  end.
+Proof. split; [intros H; apply (Qle_bool_iff 0 (-3)) in H; discriminate|vm_compute; reflexivity]. Qed.
+
+(* degenerate bounding box (a single visible keypoint): automatic scale 0, the normalisation is
+   carried by eps alone; the hypotheses of c15_oks_range / c15_oks_monotone are met *)
+Example ex_c15_degenerate_bbox :
+  area 2 [[Some 3%Q; Some 4%Q]; [None; None]] = Some 0%Q /\ scale_ok (Some 0%Q) /\ sds_ok [1 # 40; 1 # 40]%Q /\
+  n_visible [[Some 3%Q; Some 4%Q]; [None; None]] = 1%nat.
+Proof.
+  split; [vm_compute; reflexivity|]. split; [apply Qle_refl|]. split; [|reflexivity].
+  repeat constructor.
+Qed.
 
 (* all gt keypoints missing: the divisor is 0 (the code returns 0/0 = NaN) — outside the domain *)
 Example ex_c15_all_missing_gt_is_nan :
@@ -328,7 +441,7 @@ Example ex_c15_frames_nonvacuous :
           [(1%nat, 0%nat); (1%nat, 1%nat); (4%nat, 0%nat)]).
 Proof. vm_compute. reflexivity. Qed.
 
-(* the unrepaired code (F51) has no answer as soon as one frame pair has predictions and no gt *)
+(* HISTORICAL: the pinned tree (F51, before 8044028) had no answer as soon as one frame pair has predictions and no gt *)
 Example ex_c15_frames_F51 :
   match_frame_pairs false 0%Q [ (1%nat, [], [[]]); (0%nat, [1 # 2]%Q, []) ] = None.
 Proof. vm_compute. reflexivity. Qed.
